@@ -88,6 +88,16 @@ end
 def selRat (E : Nat → Rat) (thr : Rat) (n l : Nat) : Bool :=
   decide (E n - E l < thr) && decide (E l - E n < thr)
 
+/-! ### making a band-index matrix Hermitian (k.p derivatives, `R_to_k(hermitian=True)`) -/
+
+/-- `0.5 * (X + X.swapaxes(m, n).conj())` — the Hermitian part -/
+def hermitize {K : Type} [Add K] [Mul K] (conj : K → K) (half : K) (X : Nat → Nat → K) (i j : Nat) : K :=
+  half * (X i j + conj (X j i))
+
+/-- `0.5 * (X + X.swapaxes(m, n))` — the conjugation forgotten: the symmetric part -/
+def symmetrize {K : Type} [Add K] [Mul K] (half : K) (X : Nat → Nat → K) (i j : Nat) : K :=
+  half * (X i j + X j i)
+
 /-! ### `dEig_inv` for all k-points of a Data_K -/
 
 /-- `Data_K.dEig_inv[ik, n, l]`: the per-k function applied at every k-point `ik < nk` of the FFT grid -/
